@@ -669,6 +669,15 @@ fn ieee802154_seeds(cfg: Cfg, l: &Learned) -> Vec<Seed> {
     let dad = ipv6(&[0; 16], &sol, 58, 255, &icmp6(&[0; 16], &sol, 135, 0, &nsb));
     add(&mut v, "iphc/unspec-src-mcast48-dad-ns".into(), lowpan(&mac, &st(3, 3, Am::Unspec, Am::M48), &dad, Comp::Inline), false);
     add(&mut v, "iphc/full-mcast-inline".into(), lowpan(&mac, &st(3, 2, Am::Iid64, Am::Full), &echo(p6, &ALL_NODES6, 64), Comp::Inline), true);
+    // single frames whose REPLY exceeds one 802.15.4 frame and leaves in exactly two fragments
+    // (FRAG1 during ingress, FRAGN in the egress phase of the same poll): an echo request that
+    // fills the frame (smoltcp fragments above 125 octets), and a UDP datagram to a closed
+    // port (the port-unreachable error quotes it uncompressed)
+    let echo_n = |n: usize| ipv6(p6, i6, 58, 64, &icmp6(p6, i6, 128, 0, &echo_body(0x4321, 9, &vec![0x45; n])));
+    add(&mut v, "big-reply/echo-frame-127".into(), lowpan(&mac, &st(3, 2, Am::Elided, Am::Elided), &echo_n(95), Comp::Inline), true);
+    add(&mut v, "big-reply/echo-frame-126".into(), lowpan(&mac, &st(3, 2, Am::Elided, Am::Elided), &echo_n(94), Comp::Inline), true);
+    let big_udp = ipv6(p6, i6, 17, 64, &udp(p6, i6, 4000, 9, &[0x37; 70]));
+    add(&mut v, "big-reply/nhc-udp-closed-port-70".into(), lowpan(&mac, &inline64, &big_udp, Comp::Udp(0, true)), cfg.variant != 1);
     // MAC header variants around the plain echo request
     let e = echo(p6, i6, 64);
     let m = |f: &dyn Fn(&mut Mac)| {
@@ -824,9 +833,18 @@ pub fn catalogue(cfg: Cfg, l: &Learned) -> Vec<Seed> {
             // one handshake segment per socket gets the full mutation treatment, the others
             // differ from it in the sequence number only
             sd.mutate = if sd.name.ends_with("7fffffe0/open") { 2 } else { 0 };
+        } else if sd.name.contains("big-reply/") {
+            sd.pin = 1;
         } else if sd.name.contains("frag/") {
             // lone first / middle / last fragments are always available to the sequence search
             sd.pin = 1;
+        }
+    }
+    if cfg.addrs != 0 {
+        // the expectations describe the fully addressed worlds; in the IPv4-only / IPv6-only /
+        // unaddressed worlds most seeds are (rightly) ignored
+        for sd in v.iter_mut() {
+            sd.expect_effect = false;
         }
     }
     // option / record areas that lie beyond the first 96 bytes are mutated as well: all of an
